@@ -12,6 +12,7 @@ Throughout, `g : Graph ℚ` is a CSR matrix (rows of stored `(column, value)` pa
 import SkNet.Lemmas.RankPower
 import SkNet.Lemmas.RankKatz
 import SkNet.Lemmas.RankExists
+import SkNet.Lemmas.RankSweep
 
 open Finset
 
@@ -167,6 +168,19 @@ theorem piter_error (g : Graph ℚ) (hg : g.Nonneg) (hr : g.InRange) (a : ℚ) (
   obtain ⟨c, h⟩ := (isPageRank_iff hg hr a _ π).mp hπ
   exact piter_close hg hr ha ha1 y hy0 hy1 h htol K
 
+/-- ★ `piter_stop_error` : with the stopping test, for every `n_iter = K` and every tolerance, the output of
+    `solver='piteration'` is within `max (2 a^K) (2·tol/(1−a))` (ℓ1) of the PageRank vector: either `K` exact steps
+    were made, or the step moved the current probability vector by less than `tol` (the very first test compares the
+    unnormalised start `(1−a)·y` with the first iterate — their distance is exactly `a` — and then `y` is returned,
+    which is within `2a < 2·tol`). -/
+theorem piter_stop_error (g : Graph ℚ) (hg : g.Nonneg) (hr : g.InRange) (a : ℚ) (ha : 0 ≤ a) (ha1 : a < 1)
+    (y : List ℚ) (hy0 : ∀ i, 0 ≤ y.getD i 0) (hy1 : sumTo g.n (fun i => y.getD i 0) = 1)
+    (π : ℕ → ℚ) (hπ : IsPageRank g.n (entry g) a (fun i => y.getD i 0) π) (tol : ℚ) (K : ℕ) :
+    sumTo g.n (fun i => |(piteration g a y K tol).getD i 0 - π i|) ≤ max (2 * a ^ K) (2 * tol / (1 - a)) := by
+  rw [sumTo_eq] at hy1 ⊢
+  obtain ⟨c, h⟩ := (isPageRank_iff hg hr a _ π).mp hπ
+  exact piter_close_tol hg hr ha ha1 y hy0 hy1 h tol K
+
 /-! ## D-iteration -/
 
 /-- ★ `diter_invariant` : for every sequence of atomic node activations, in any order,
@@ -215,6 +229,52 @@ theorem diter_error (g : Graph ℚ) (hg : g.Nonneg) (hr : g.InRange) (hs : g.Row
   have hst : st = activate g a (1 - a) { scores := tab g.n fun _ => (0 : ℚ), fluid := fluid0, residu := 1 - a } ks := hks
   rw [hst]
   exact diffusion_residual hP ha (hI0.activate hr (1 - a) ks) (hM0.activate hg hr hs ha ks hI0) z hz
+
+/-- ★ `sweep_contracts` : one sweep over the nodes `0 … n−1` (each an atomic activation) leaves at most the fraction
+    `a` of the fluid, so `K` sweeps leave at most `a^K`. -/
+theorem diter_sweep_contracts (g : Graph ℚ) (hg : g.Nonneg) (hr : g.InRange) (hs : g.RowStoch)
+    (hP : SubStoch g.n (entry g)) (a : ℚ) (ha : 0 ≤ a) (ha1 : a ≤ 1) (F0 : ℕ → ℚ) (st : DState ℚ)
+    (hI : DInv g a F0 st) (hM : DMass g st) : (diterSweep g a (1 - a) st).residu ≤ a * st.residu :=
+  sweep_contracts hg hr hs hP ha ha1 hI hM
+
+/-- ★ `diteration_error` : `solver='diteration'` (normalisation of the adjacency, the kernel with its stopping test,
+    final normalisation) with `n_iter = K ≥ 1` is within `2·max(tol, a^K)/(1−a)` (ℓ1) of the PageRank vector. -/
+theorem diteration_error (g : Graph ℚ) (hg : g.Nonneg) (hr : g.InRange) (a : ℚ) (ha : 0 ≤ a) (ha1 : a < 1)
+    (y : List ℚ) (hy0 : ∀ i, 0 ≤ y.getD i 0) (hy1 : sumTo g.n (fun i => y.getD i 0) = 1)
+    (π : ℕ → ℚ) (hπ : IsPageRank g.n (entry g) a (fun i => y.getD i 0) π) (tol : ℚ) (K : ℕ) (hK : 0 < K) :
+    sumTo g.n (fun i => |(diteration g a y K tol).getD i 0 - π i|) ≤ 2 * max tol (a ^ K) / (1 - a) := by
+  rw [sumTo_eq] at hy1 ⊢
+  obtain ⟨c, h⟩ := (isPageRank_iff hg hr a _ π).mp hπ
+  exact diteration_close hg hr ha ha1 y hy0 hy1 h tol K hK
+
+/-- non-vacuity of the hypotheses on the graph and the restart vector used by the solver theorems: the witness
+    graph below (`0 → 1`, `1 → {0, 1}`), the uniform restart, damping 1/2, PageRank vector `(2/5, 3/5)`. -/
+example : ∃ (g : Graph ℚ) (y : List ℚ) (π : ℕ → ℚ), g.Nonneg ∧ g.InRange ∧ (∀ i, 0 ≤ y.getD i 0) ∧
+    sumTo g.n (fun i => y.getD i 0) = 1 ∧ IsPageRank g.n (entry g) (1/2) (fun i => y.getD i 0) π := by
+  refine ⟨{ n := 2, row := fun i => if i = 0 then [(1, 1)] else if i = 1 then [(0, 1), (1, 1)] else [] },
+    [1/2, 1/2], fun i => ([2/5, 3/5] : List ℚ).getD i 0, ?_, ?_, ?_, by decide +kernel,
+    isPageRankB_sound _ _ _ _ _ (by decide +kernel)⟩
+  · intro i p hp
+    simp only at hp
+    split at hp
+    · simp at hp; subst hp; norm_num
+    · split at hp
+      · simp at hp; rcases hp with rfl | rfl <;> norm_num
+      · simp at hp
+  · intro i p hp
+    simp only at hp
+    split at hp
+    · simp at hp; subst hp; norm_num
+    · split at hp
+      · simp at hp; rcases hp with rfl | rfl <;> norm_num
+      · simp at hp
+  · intro i
+    by_cases h0 : i = 0
+    · subst h0; norm_num
+    · by_cases h1 : i = 1
+      · subst h1; norm_num
+      · have : 2 ≤ i := by omega
+        rw [List.getD_eq_getElem?_getD, List.getElem?_eq_none (by simpa using this)]; simp
 
 /-! ## closeness -/
 
